@@ -122,7 +122,12 @@ class Interp:
         for path in self.cfg.get('preload', []):
             self.res[path]()
         self.handle = d.WorldFromFileHandle(self.file)
-        self.root[self.cfg['handle_key']] = self.handle
+        if self.cfg.get('standalone'):
+            # a handle that lives in no resource tree (nothing refers to
+            # resources in such a run)
+            self.probes['free_standing_handle'] += 1
+        else:
+            self.root[self.cfg['handle_key']] = self.handle
         if '/' in self.cfg['handle_key']:
             self.probes['handle_depth>=2'] += 1
         self.world = None
@@ -297,28 +302,29 @@ class Interp:
             if m[2] is not None:
                 self.check_obj(f'processor {m[1]}', p, m[2])
         # entities
-        auto = 0
-        used = {e['id'] for e in desc.get('entities', []) if 'id' in e}
-        want_ents = {}
+        # entities: the ones with an identifier are found under it; which
+        # automatic identifier the others get is not stated - each of them
+        # must be matched by one distinct entity of the world
+        explicit, autos = {}, []
         for e in desc.get('entities', []):
             if 'id' in e:
-                eid = e['id']
                 self.probes['explicit_id'] += 1
-            else:
-                auto += 1
-                while auto in want_ents:
-                    auto += 1
-                eid = auto
-            if e.get('components'):
-                want_ents[eid] = e['components']
-            else:
+                if e.get('components'):
+                    explicit[e['id']] = e['components']
+            elif e.get('components'):
+                autos.append(e['components'])
+            if not e.get('components'):
                 self.probes['entity_without_components'] += 1
-        got_ids = sorted(map(repr, w.entities))
-        if got_ids != sorted(map(repr, want_ents)):
-            self.fail('entities', f'entities {got_ids}, expected '
-                      f'{sorted(map(repr, want_ents))}')
+        got_ids = list(w.entities)
+        missing = [i for i in explicit if not any(
+            type(g) is type(i) and g == i for g in got_ids)]
+        if missing or len(got_ids) != len(explicit) + len(autos):
+            self.fail('entities', f'entities {sorted(map(repr, got_ids))}: '
+                      f'expected the identifiers {sorted(map(repr, explicit))}'
+                      f' plus {len(autos)} automatically numbered one(s)')
         self.handler_comps = []
-        for eid, comps in want_ents.items():
+
+        def judge_entity(eid, comps):
             got = list(w.get_components(eid))
             if len(got) != len(comps):
                 self.fail('components', f'entity {eid!r} has '
@@ -327,8 +333,31 @@ class Interp:
             for obj, spec in zip(got, comps):
                 self.check_obj(f'entity {eid!r} component {spec["type"]}',
                                obj, spec)
-                if hasattr(obj, '__events__'):
-                    self.handler_comps.append((eid, obj))
+            return [(eid, obj) for obj in got if hasattr(obj, '__events__')]
+        for eid, comps in explicit.items():
+            self.handler_comps += judge_entity(eid, comps)
+        free = [g for g in got_ids if not any(
+            type(g) is type(i) and g == i for i in explicit)]
+        for comps in autos:
+            last = None
+            for g in list(free):
+                saved = (set(self.refs), set(self.res_used))
+                try:
+                    hc = judge_entity(g, comps)
+                except Violation as v:
+                    last = v
+                    self.refs, self.res_used = saved
+                    continue
+                free.remove(g)
+                self.handler_comps += hc
+                break
+            else:
+                if last is not None and len(autos) == 1:
+                    raise last
+                self.fail('components', f'no entity of the world matches '
+                          f'the listed entity with components '
+                          f'{[c["type"] for c in comps]} (candidates: '
+                          f'{sorted(map(repr, free))})')
 
     def op_enable(self, op):
         if self.world is None or self.enabled_checked:
@@ -521,7 +550,7 @@ def gen_desc(rng, resources, refs_ok=True):
         desc['processors'] = [gen_spec(rng, PROC_TYPES, resources, refs_ok)
                               for _ in range(rng.randint(0, 4))]
     ents = []
-    ids = [0, '', 'hero', 100, -1, '0', 101, 'a b']
+    ids = [0, '', 'hero', 100, -1, '0', 101, 'a b', 1, 2, 3]
     rng.shuffle(ids)
     for _ in range(rng.randint(0, 5)):
         e = {}
@@ -546,11 +575,14 @@ def generate(prop, run_seed, tier='quick', tolerate=frozenset()):
     rng = kernel.stream(run_seed, 'gen')
     names = ['a', 'b', 'img', 'dir.b', 'dir.sub.c', 'x.y', 'dir.d']
     resources = crng.sample(names, crng.randint(0, 5))
+    standalone = crng.random() < .06
+    if standalone:
+        resources = []
     # a path and one of its prefixes cannot both be handles
     resources = [r for r in resources if not any(
         o != r and o.startswith(r + '.') for o in resources)]
     cfg = {'policy': crng.choice(['fifo', 'lifo', 'reshuffle']),
-           'resources': resources,
+           'resources': resources, 'standalone': standalone,
            'preload': [r for r in resources if crng.random() < .4],
            'handle_key': crng.choice(['w', 'worlds/w1', 'worlds/l1/w',
                                       'deep/er/still/w', 'w2'])}
@@ -644,5 +676,5 @@ PROBES = {'C15': ['ref.object', 'ref.res', 'ref.handle', 'near_miss_string',
                   'nested_marker_passthrough', 'explicit_id',
                   'entity_without_components', 'handle_depth>=2',
                   'reload_after_rewrite', 'dict_path', 'callbacks_checked',
-                  'handle_moved_to_another_tree',
+                  'handle_moved_to_another_tree', 'free_standing_handle',
                   'class_decorated_after_use']}
